@@ -18,9 +18,11 @@ import (
 	"net/http/httptest"
 	"net/netip"
 	"os"
+	"path/filepath"
 	"sort"
 	"strings"
 	"sync"
+	"time"
 
 	"github.com/database64128/shadowsocks-go/api/ssm"
 	"github.com/database64128/shadowsocks-go/conn"
@@ -402,4 +404,52 @@ func KeyName(k []byte, keyLen int) string {
 		return fmt.Sprintf("%x…(%dB)", k[:4], len(k))
 	}
 	return fmt.Sprintf("%x(%dB)", k, len(k))
+}
+
+// ScratchBase returns the directory under which a check creates its per-case store
+// directories. Store files are rewritten (and, since the atomic-save fix, fsynced) thousands
+// of times per run; on a disk-backed directory the fsyncs dominate the run time, and durability
+// is not what these checks observe, so a memory-backed file system is preferred when there is
+// one. VERIF_SCRATCH overrides; the fallback is $VERIF_WORK (removed by the driver) or the
+// system temp dir. Stale directories of killed runs (same prefix, older than two hours) are swept.
+func ScratchBase(prefix string) string {
+	base := os.Getenv("VERIF_SCRATCH")
+	if base == "" {
+		if fi, err := os.Stat("/dev/shm"); err == nil && fi.IsDir() {
+			if f, err := os.CreateTemp("/dev/shm", prefix+"probe-"); err == nil {
+				f.Close()
+				os.Remove(f.Name())
+				base = "/dev/shm"
+			}
+		}
+	}
+	if base == "" {
+		if base = os.Getenv("VERIF_WORK"); base == "" {
+			base = os.TempDir()
+		}
+		return base
+	}
+	if ents, err := os.ReadDir(base); err == nil {
+		for _, e := range ents {
+			if strings.HasPrefix(e.Name(), prefix) {
+				if fi, err := e.Info(); err == nil && time.Since(fi.ModTime()) > 2*time.Hour {
+					os.RemoveAll(filepath.Join(base, e.Name()))
+				}
+			}
+		}
+	}
+	return base
+}
+
+// Listed reports whether the finding (property, short signature) is listed as open in the
+// known-findings file, accepting both spellings in use there ("sig" and "CNN/sig"), and returns
+// the spelling that is listed so that hit counts are attributed to the listed entry.
+func Listed(isKnown func(property, sig string) bool, property, sig string) (string, bool) {
+	if isKnown(property, property+"/"+sig) {
+		return property + "/" + sig, true
+	}
+	if isKnown(property, sig) {
+		return sig, true
+	}
+	return sig, false
 }
